@@ -146,8 +146,10 @@ func genTagDoc(r *Rng) tagDoc {
 		}
 		return tt
 	}
-	segs := []string{"cats", "dogs", "a_b", "x y", "cats"}
-	auto := func(path string) string { return catalog.VerifTagName(catalog.VerifPathTagTitle(path)) }
+	segs := []string{"cats", "dogs", "a_b", "x y", "cats", "cats/..", "..", ".", "./cats", "cats/.", "../cats", "/dogs", "..."}
+	// the automatic tag is the tag of the FIRST segment of the path (written from the statement: the first segment
+	// that is neither empty nor "."; "/" when there is none), not what pathTagTitle computes
+	auto := func(path string) string { return catalog.VerifTagName(specPathTagTitle(path)) }
 	tagsLine := func(ind string, tt []string) string {
 		if tt == nil {
 			return ""
@@ -352,4 +354,16 @@ func c19Docs(ctx *Ctx, r *Rng) {
 	}
 	ctx.Cov.Component("tagging rule on documents about tags (specification on the implementation)", len(docs), bad, "")
 	buildCorrespondence(ctx, docs, nil, "documents about tags (own Tags, URL-level Tags, automatic tags, undeclared names)")
+}
+
+
+// specPathTagTitle: "/" + the first path segment that is neither empty nor "." ("/" when there is none) — C19's
+// "first path segment", written from the statement.
+func specPathTagTitle(path string) string {
+	for _, sg := range strings.Split(path, "/") {
+		if sg != "" && sg != "." {
+			return "/" + sg
+		}
+	}
+	return "/"
 }
